@@ -869,7 +869,17 @@ func c13reload(c *Ctx) {
 		}
 		c.R.Check(len(ee) == 0 && loops >= 1, rule, discovPkg+".(*container).doRemoveKey#all", "the key is filtered out of values[value] completely: the loop visits every element (a replayed PUT lists the key twice)", posOf(c, f), fmt.Sprintf("%v (loops: %d)", ee, loops), ee, loops)
 	}
-	c.R.Min(rule, 5, "watchStream wrap, watch reload, 2 listener copies, filter loop")
+	// reconnect: every watch key is reloaded by its own task (no shared loop variable)
+	nfun, bad := 0, []string{}
+	for _, fn := range c.P.AllFuncs(discovInt) {
+		if fn.Parent() != nil {
+			continue
+		}
+		nfun++
+		bad = append(bad, loopVarCaptures(c, fn)...)
+	}
+	c.R.Check(len(bad) == 0 && nfun > 20, rule, discovInt+"#loopvars", "no closure started from inside a loop captures the loop's variable by reference (on reconnect each watch key must be reloaded and re-watched by its own task, not all tasks by the last key)", "-", strings.Join(bad, "; "), bad, nfun)
+	c.R.Min(rule, 6, "watchStream wrap, watch reload, 2 listener copies, filter loop, loop variables")
 }
 
 // ---------------------------------------------------------------- kube endpoints handler
@@ -950,6 +960,18 @@ func c13kube(c *Ctx) {
 			ups := p.All(isUpdateCall)
 			if p.Exit != px.ExitReturn {
 				return true, ""
+			}
+			// an Endpoints object is always processed (no early return on other arguments such as isInInitialList)
+			// only a foreign object is ignored: an early return on anything else (e.g. isInInitialList) drops addresses
+			foreign := false
+			for _, b := range p.All(px.KindIs(px.EvBranch)) {
+				cn := b.Cond.Strip(false)
+				if cn.Kind == px.KExtract && cn.Index == 1 && cn.X.Kind == px.KTypeAssert && p.Abs(cn).K == px.False {
+					foreign = true
+				}
+			}
+			if !foreign && !p.Has(lockOn("lock", "Lock")) {
+				return false, "an Endpoints event is dropped without being applied (return before the set is examined, not because the object is foreign): addresses delivered only by this event are never published"
 			}
 			if changes > 0 && len(ups) != 1 {
 				return false, fmt.Sprintf("the address set changed but the resolver is notified ×%d", len(ups))
